@@ -288,7 +288,7 @@ func (s *ZZStaking) ValidatorByConsAddr(sdk.Context, sdk.ConsAddress) stakingtyp
 	return nil
 }
 func (s *ZZStaking) Slash(sdk.Context, sdk.ConsAddress, int64, int64, sdk.Dec) {}
-func (s *ZZStaking) Jail(sdk.Context, sdk.ConsAddress)                           {}
+func (s *ZZStaking) Jail(sdk.Context, sdk.ConsAddress)                         {}
 
 // ---------------- account / slashing / oracle ----------------
 
